@@ -80,6 +80,17 @@ func (k Keeper) ValidDid(ctx sdk.Context, did string) error {
 	return nil
 }
 
+// IsSidDocumentOfDid reports whether versionId is one of the key documents in the
+// version history of the given sid DID.
+func (k Keeper) IsSidDocumentOfDid(ctx sdk.Context, did string, versionId string) bool {
+	parsedDid, err := parser.Parse(did)
+	if err != nil {
+		return false
+	}
+	versions, found := k.GetSidDocumentVersion(ctx, parsedDid.ID)
+	return found && inList(versionId, versions.VersionList)
+}
+
 func (k Keeper) CreatorIsBoundToDid(ctx sdk.Context, creator, did string) error {
 	logger := k.Logger(ctx)
 
